@@ -215,6 +215,27 @@ def run_case(i, rng, rec, tier, state):
         rec.cls("quadrant:" + ("+" if cen[0] >= 0 else "-") + ("+" if cen[1] >= 0 else "-"))
         info.update(axes=ax, center=cen)
         nontriv = bool(np.any(cen != 0)) or (which == "Ellipse" and ax[0] != ax[1])
+    if which == "Polygon" and c["tilted"]:
+        # two-column points are points of the plane z = 0.  A tilted polygon meets that plane in a line; points of that line
+        # are in-plane queries like any other, and are handed over the way a 2-D caller would: as (x, y)
+        with contracts.quiet():
+            n_ = np.asarray(s.normal, float)
+        hxy = float(n_[0] ** 2 + n_[1] ** 2)
+        if hxy > 1e-6:
+            d_ = float(n_ @ Vs[0])
+            p0 = np.array([n_[0], n_[1], 0.0]) * d_ / hxy
+            t_ = np.cross(n_, [0.0, 0.0, 1.0])
+            t_ /= np.linalg.norm(t_)
+            sv = (Vs - p0) @ t_
+            if (np.abs((Vs - p0) @ np.cross(n_, t_))).min() < 10 * gen.diameter(Vs):
+                ss = rng.uniform(sv.min() - 0.2 * np.ptp(sv), sv.max() + 0.2 * np.ptp(sv), size=24)
+                line = p0 + ss[:, None] * t_
+                rec.cls("Polygon:tilted:(N,2)-points-on-its-trace-in-z=0")
+                try:
+                    s.is_inside(line[:, :2].copy())
+                    s.is_inside(line[0, :2].copy())
+                except Exception as e:
+                    rec.violation("Polygon.is_inside", f"Polygon.is_inside/raises-{type(e).__name__}", dict(info, exc=repr(e)[:200], form="(N,2) on a tilted polygon"))
     arg = pts[:, :2].copy() if use2 else pts.copy()
     try:
         res = np.asarray(s.is_inside(arg))
